@@ -8,6 +8,8 @@ from ..astutil import call_name, compare_norm, dotted, short, u
 from ..core import Report
 from ..ctx import sites
 from ..frontend import Repo
+from ..model import is_subscribe_call
+from ..rules import cell_name, names_augmented
 from . import typestate_common as TC
 
 O = "reactivex/operators/"
@@ -24,12 +26,23 @@ def age_tests(h) -> List[Tuple[object, str, str]]:
     emits downstream, 'drop' if it only removes from the queue."""
     out = []
     par = h.module.parents
+    # roles: `now` is a local read from the scheduler clock; the age is `now - <recorded time>`; the duration is a
+    # variable of the operator factory (an enclosing function), not of the subscription
+    nows = {t.id for n in h.direct_nodes() if isinstance(n, ast.Assign) and isinstance(n.value, ast.Attribute) and n.value.attr == "now"
+            for t in n.targets if isinstance(t, ast.Name)}
+    def is_age(x):
+        return isinstance(x, ast.BinOp) and isinstance(x.op, ast.Sub) and isinstance(x.left, ast.Name) and x.left.id in nows
+    def is_duration(x):
+        if not isinstance(x, ast.Name):
+            return False
+        o = h.owner(x.id)
+        return o is not None and o.is_func and o is not h and o is not h.parent or (o is h.parent and x.id in getattr(h.parent, "nonlocals", ()))
     for s in sites(h):
         n = s.node
         if not isinstance(n, ast.Compare):
             continue
-        r = compare_norm(n, lambda x: "interval" in u(x) and "now" in u(x))
-        if not r or u(r[1]) != "duration":
+        r = compare_norm(n, is_age)
+        if not r or not is_duration(r[1]):
             continue
         # the statement this test controls
         st = n
@@ -101,30 +114,56 @@ def check(repo: Repo, rep: Report) -> None:
     t = repo.fn(f"{O}_timeout.py", "timeout_.subscribe")
     act = t.find("create_timer.action")
     rep.require(act is not None, "timeout_ timer action")
-    sw = [s for s in sites(act) if isinstance(s.node, ast.Call) and dotted(s.node.func) == "obs.subscribe"]
+    # roles: the id is the cell the element handler increments; the captured id the local of create_timer copied from it;
+    # the fallback subscription is the `.subscribe(observer, ...)` made by the timer action
+    ids = names_augmented(t.child("on_next"), ast.Add)
+    rep.require(len(ids) == 1, "timeout_: id cell")
+    idc = ids[0]
+    ct = t.child("create_timer")
+    cap = [s for s in sites(ct) if isinstance(s.node, ast.Assign) and cell_name(s.node.value) == idc and isinstance(s.node.targets[0], ast.Name)]
+    idv = cap[0].node.targets[0].id if cap else None
+    def id_eq(e):
+        return isinstance(e, ast.Compare) and len(e.ops) == 1 and isinstance(e.ops[0], ast.Eq) \
+            and {cell_name(e.left), cell_name(e.comparators[0])} == {idc, idv}
+    sw = [s for s in sites(act) if is_subscribe_call(s.node) and s.node.args and u(s.node.args[0]) == t.params[0]]
     ok = False
-    if sw:
+    switched_cells = set()
+    if sw and idv:
+        # values (cells / locals) defined in the action as the id equality, transitively through plain copies
+        eqs = set()
+        for _ in range(3):
+            for x in sites(act):
+                if isinstance(x.node, ast.Assign):
+                    v = x.node.value
+                    if id_eq(v) or (cell_name(v) in eqs and isinstance(v, (ast.Name, ast.Subscript))):
+                        for tg in x.node.targets:
+                            if cell_name(tg):
+                                eqs.add(cell_name(tg))
+        switched_cells = {c for c in eqs if act.owner(c) is not act}
         for e, p in sw[0].ctx.guards:
-            if p and isinstance(e, ast.Name):
-                d = [x for x in sites(act) if isinstance(x.node, ast.Assign) and u(x.node.targets[0]) == e.id]
-                for x in d:
-                    src = u(x.node.value)
-                    if "==" in src and "_id" in src:
-                        ok = True
-                    if src == "switched[0]":
-                        d2 = [y for y in sites(act) if isinstance(y.node, ast.Assign) and u(y.node.targets[0]) == "switched[0]" and "==" in u(y.node.value) and "_id" in u(y.node.value)]
-                        ok = ok or bool(d2)
-            if p and isinstance(e, ast.Compare) and "_id" in u(e) and "==" in u(e):
+            if p and (id_eq(e) or cell_name(e) in eqs):
                 ok = True
     rep.ob("X2-timeout-stale-guard", act, "fallback subscribed only if id == captured id", ok,
            "the timer switches to the fallback although the source emitted or terminated since the timer was armed")
-    cap = [s for s in sites(t.child("create_timer")) if isinstance(s.node, ast.Assign) and u(s.node.value) == "_id[0]"]
-    rep.ob("X2-timeout-stale-guard", t.child("create_timer"), "id captured when the timer is armed", bool(cap), "the timer does not remember which element it was armed for")
+    rep.ob("X2-timeout-stale-guard", ct, "id captured when the timer is armed", bool(cap), "the timer does not remember which element it was armed for")
     for hn in ("on_next", "on_error", "on_completed"):
         h = t.child(hn)
-        bumps = [s for s in sites(h) if isinstance(s.node, ast.AugAssign) and "_id" in u(s.node.target)]
+        bumps = [s for s in sites(h) if isinstance(s.node, ast.AugAssign) and cell_name(s.node.target) == idc]
         downs = [s for g, s, k in TC.downstream_sites(t) if g is h]
+        # the forwarding branch is decided by the switched cell being false (directly or through a local copy of `not switched`)
+        def not_switched(e, p_, h=h):
+            if cell_name(e) in switched_cells and isinstance(e, (ast.Name, ast.Subscript)):
+                return not p_
+            if isinstance(e, ast.Name):
+                for d in sites(h):
+                    if isinstance(d.node, ast.Assign) and u(d.node.targets[0]) == e.id:
+                        v = d.node.value
+                        if isinstance(v, ast.UnaryOp) and isinstance(v.op, ast.Not) and cell_name(v.operand) in switched_cells:
+                            return p_
+                        if cell_name(v) in switched_cells and isinstance(v, (ast.Name, ast.Subscript)):
+                            return not p_
+            return False
         ok = len(bumps) == 1 and len(downs) == 1 and bumps[0].ctx.branch == downs[0].ctx.branch and bumps[0].index < downs[0].index \
-            and any("switched" in x for x in TC.guards_text(downs[0]) + [u(d.node.value) for d in sites(h) if isinstance(d.node, ast.Assign)])
+            and any(not_switched(e, p_) for e, p_ in downs[0].ctx.guards)
         rep.ob("X2-timeout-stale-guard", h, f"timeout_.{hn}: bump id and forward unless already switched", ok,
                f"timeout: {hn} does not invalidate the pending timer (id bump) before forwarding, or forwards after the switch")
